@@ -51,7 +51,7 @@ func c16Op(tpl *Template, op, name int, d int64, s string) c16Result {
 		if d%2 == 0 {
 			data["u"] = c16LocalUser2(s) // a second local type that prints the same name as the one of case 3
 		}
-	case 5:
+	case 5, 6:
 		data = nil // renders without data
 	}
 	cwd := vfsCwd()
